@@ -68,8 +68,9 @@ fn gen_slot(ch: &mut Chooser, used: &[W], small_only: bool) -> W {
             return s;
         }
     }
-    // fall back to a fresh small slot
-    let mut s = W::from_u64(20_000);
+    // fall back to a fresh small slot (below the 10000 pre-image table, so that a pre-folded array
+    // base stays recognisable)
+    let mut s = W::from_u64(9_100);
     while used.contains(&s) {
         s = s.add(W::ONE);
     }
